@@ -1,4 +1,4 @@
-import JunoModel.C04.ProofsChain
+import JunoModel.C04.ProofsInv
 /-!
 C04 — reverting the head exactly undoes a block; forks converge.
 
@@ -65,6 +65,15 @@ theorem revert_store_id_partial (cfg : Cfg) (nd nd' : Node) (b : Block)
     (hst : ∀ casm', storeCasm b.number b nd.casm = .ok casm' → StateInverse cfg nd.st b casm')
     (h : store cfg nd b = .ok nd') : revert cfg nd' = .ok nd :=
   revert_store_of_parts cfg wf fr hst hcasm hfil hwin h
+
+/-- `Store` maintains the invariant of the per-block buckets (`IndexWF`, one of the hypotheses of
+`StepOK`), and the empty node satisfies it: for these bucket families the hypothesis holds on every
+node reachable from the empty one. -/
+theorem store_preserves_index_invariant (cfg : Cfg) (nd nd' : Node) (b : Block) (wf : IndexWF nd)
+    (h : store cfg nd b = .ok nd') : IndexWF nd' ∧ nd'.nextNumber = nd.nextNumber + 1 :=
+  store_preserves_IndexWF wf h
+
+theorem empty_node_index_invariant : IndexWF Node.init := init_IndexWF
 
 /-! ### Witnesses: where the full-strength statement is false of the code as found
 
